@@ -115,8 +115,8 @@ func extraExecs(rec *OpRec, trace []*simkit.RPCRecord) (lost, dup, attempts int)
 		attempts++
 		if r.Fate == simkit.Dup {
 			dup++
-		} else if r.Executed && !r.Returned {
-			lost++
+		} else if r.Executed && (!r.Returned || r.Fate == simkit.ExecUndetermined) {
+			lost++ // executed, but the caller was not told (no answer, or the answer "result undetermined")
 		}
 	}
 	return
